@@ -84,6 +84,9 @@ SIZE = packs("size")
 ALLOCU = packs("alloc")
 CORE = packs("core")
 TWIN = packs("twin")
+# -fno-exceptions engine (flavour nx20): every non-"big" core / twin universe plus the allocators
+# with construct()/destroy() members (the big ones need length_error to be catchable)
+NXU = [u for u in ALL if not u["big"] and (u["packs"] & {"core", "twin"} or "_cm" in u["name"] or "legacy" in u["name"])]
 
 
 def plan(prop, tier):
@@ -102,22 +105,26 @@ def _plan(prop, q, n):
         extra = []
         if not q:  # the shipped flags (-O2 -DNDEBUG, no sanitizer)
             extra = [storm(NORMAL, 100000, n, 0, 32, "rel20")]
+        extra.append(storm(NXU, 4000 if q else 40000, n, 0, 24 if q else 40, "nx20"))
         return extra + [storm(SIZE, 8000 if q else 80000, n, 0, 20 if q else 32),
                         storm(NORMAL, 30000 if q else 300000, n, 0, 24 if q else 40),
                 storm(NORMAL, 12500 if q else 125000, n, 1, 24 if q else 40)]
     if prop == "C02":
-        st = [storm(ALL, 25000 if q else 250000, n, 1, 24 if q else 40)]
+        st = [storm(ALL, 25000 if q else 250000, n, 1, 24 if q else 40),
+              storm(NXU, 3000 if q else 30000, n, 0, 24 if q else 40, "nx20")]
         if not q:  # header asserts as extra oracles (non-NDEBUG build)
             st.append(storm(NORMAL, 20000, n, 1, 32, "dbg20"))
         return st
     if prop == "C03":
-        st = [storm(instrumented(ALL), 30000 if q else 300000, n, 1, 24 if q else 40)]
+        st = [storm(instrumented(ALL), 30000 if q else 300000, n, 1, 24 if q else 40),
+              storm(instrumented(NXU), 3000 if q else 30000, n, 0, 24 if q else 40, "nx20")]
         if not q:  # MSan substitute: the shipped flags (-O2 -DNDEBUG, no sanitizer) under valgrind
             st.append(dict(storm(CORE + TWIN, 40, n, 1, 24, "rel20"), valgrind=True))
         return st
     if prop == "C04":
         return [storm(instrumented(NORMAL), 20000 if q else 200000, n, 1, 24 if q else 40),
-                storm(instrumented(NORMAL), 15000 if q else 150000, n, 0, 24 if q else 40)]
+                storm(instrumented(NORMAL), 15000 if q else 150000, n, 0, 24 if q else 40),
+                storm(instrumented(NXU), 3000 if q else 30000, n, 0, 24 if q else 40, "nx20")]
     if prop == "C05":
         return [sweep(instrumented(NORMAL), 15000 if q else 100000, n, D.MASK_C05)]
     if prop == "C06":
@@ -169,6 +176,7 @@ def setup():
     """MANIFEST.setup_cmd: build the primary engine binary from files on disk only."""
     try:
         B.build("asan20", ALL)
+        B.build("nx20", NXU)
         import specials as S
         for fl in S.C17_FLAVOURS:
             B.build(fl, UV.by_pack("c17"))
@@ -256,7 +264,8 @@ def run_check(prop, tier, seed):
         if fl not in binaries:
             try:
                 binaries[fl] = B.build(fl, ALL if fl in ("asan20", "dbg20", "rel20") else
-                                       (packs("core") if fl == "nostrong20" else st["universes"]))
+                                       (packs("core") if fl == "nostrong20" else
+                                        NXU if fl == "nx20" else st["universes"]))
             except B.BuildError as e:
                 print("[check %s] build failed: %s" % (prop, e))
                 print(e.output[-3000:])
